@@ -89,7 +89,7 @@ class Env:
             r = f(M, st, th, ci, args)
             if r is not None: return r
         f = s.path_models.get(('', ci['method']))
-        if f is not None and (ci['self_head'] is None or ci.get('segs', [''])[0] in ('std', 'core', 'alloc')):
+        if f is not None and (ci['self_head'] is None or ci.get('segs', [''])[0] in ('std', 'core', 'alloc', 'verif')):
             r = f(M, st, th, ci, args)
             if r is not None: return r
         return None
@@ -674,6 +674,11 @@ class Env:
                 outs.append(('ret', st2, err(Opaque('TryFromIntError')) if big else ok(v)))
             return outs
         return None
+
+    # ======================================================= verification hooks (only present with --cfg deadpool_verif)
+    def p___point(s, M, st, th, ci, a):
+        name = a[0].tag if isinstance(a[0], Opaque) else str(a[0])
+        return [('yield', st, name.replace('str:', '').strip('"'))]
 
     # ======================================================= num_cpus / logging
     def p___get_physical(s, M, st, th, ci, a): return None
